@@ -156,6 +156,7 @@ class C06(Prop):
         out["a1"], out["a2"] = Fraction(float(s1.area)), Fraction(float(s2.area))
         out["i"] = Fraction(float(s1.intersection(s2).area))
         out["i_self"] = Fraction(float(s1.intersection(s1).area))
+        out["p1_valid"] = bool(s1.is_valid)
         # shifted pair
         d = c["d"]
         sg1, sg2 = G.build(shift(c["g1"], d)), G.build(shift(c["g2"], d))
@@ -214,7 +215,8 @@ class C06(Prop):
             vs = o["val_self"]
             if vs is None or vs > 1 or vs < 1 - TOL:
                 fail("self-affinity", f"affinity of a {t1} with itself is {None if vs is None else float(vs)!r}, expected exactly 1 (never more)",
-                     over_one=bool(vs is not None and vs > 1))
+                     over_one=bool(vs is not None and vs > 1), deficit=(None if vs is None else float(1 - vs)),
+                     prepared_valid=o.get("p1_valid"))
         # the buffered time extent itself, read off the coordinates: [max(tmin - tb, 0), tmax + tb] for the five buffered
         # types (exact for stamps and points, whose round caps have axis-aligned vertices; within 2% of the buffer for
         # lines, whose polygonal caps follow the line direction), the unbuffered extent otherwise
